@@ -1206,6 +1206,10 @@ def remove_redundant_transpose_reduce_ir(graph: ir.Graph) -> None:
             if t2_out is None or reducer_out is None:
                 continue
             _copy_shape_dtype(reducer_out, t2_out)
+            if _shape_dims_key(getattr(t2_out, "shape", None)) is None:
+                # T2's output carries no shape: the reducer's old annotation describes
+                # the reduced value in the TRANSPOSED layout and is stale now.
+                reducer_out.shape = None
             ir.convenience.replace_all_uses_with(
                 t2_out, reducer_out, replace_graph_outputs=True
             )
